@@ -2,6 +2,7 @@ package e1
 
 import (
 	"fmt"
+	"google.golang.org/protobuf/encoding/protowire"
 	"os"
 	"os/exec"
 	"path/filepath"
@@ -140,6 +141,30 @@ func restoreFaultPart(run *report.Run, st *Setup, cases, faultsPerCase int, kind
 			if r.Chance(1, 3) && !onlyMissing {
 				fkind = "unreadable"
 			}
+			if r.Chance(1, 4) && !onlyMissing {
+				// the entry is there and readable but is not what was stored: cut short, other
+				// bytes, or - for structured entries (results, trees) - a message that still
+				// decodes but lacks a field somewhere inside. The cache does not verify contents
+				// on read, so this reaches the code that interprets the entry.
+				fkind = rng.Pick(r, []string{"corrupt-truncated", "corrupt-garbage", "corrupt-field-dropped", "corrupt-field-dropped"})
+				if fkind == "corrupt-field-dropped" {
+					// aim at the structured entries: target results and directory trees
+					var structured []string
+					for sk, sb := range store {
+						if strings.HasPrefix(sk, "target/") {
+							structured = append(structured, sk)
+						} else if strings.HasPrefix(sk, "cas/") {
+							if tr, err := audit.DecodeTree(sb); err == nil && (len(tr.Root.Files)+len(tr.Root.Dirs)+len(tr.Children)) > 0 {
+								structured = append(structured, sk)
+							}
+						}
+					}
+					sort.Strings(structured)
+					if len(structured) > 0 {
+						k = structured[r.Intn(len(structured))]
+					}
+				}
+			}
 			victims := []string{k}
 			if double && r.Chance(1, 2) && len(keys) > 1 {
 				victims = append(victims, keys[(fi+1)%len(keys)])
@@ -156,9 +181,25 @@ func restoreFaultPart(run *report.Run, st *Setup, cases, faultsPerCase int, kind
 			}
 			for _, v := range victims {
 				p := filepath.Join(cache, filepath.FromSlash(v))
+				orig, _ := os.ReadFile(p)
 				_ = os.Remove(p)
-				if fkind == "unreadable" {
+				switch fkind {
+				case "unreadable":
 					_ = os.Mkdir(p, 0755) // a directory where a blob should be: open succeeds, read fails
+				case "corrupt-truncated":
+					_ = os.WriteFile(p, orig[:len(orig)/2], 0644)
+				case "corrupt-garbage":
+					g := make([]byte, len(orig))
+					for gi := range g {
+						g[gi] = byte(r.Intn(256))
+					}
+					_ = os.WriteFile(p, g, 0644)
+				case "corrupt-field-dropped":
+					m, ok := dropNestedField(r, orig, 0)
+					if !ok {
+						m = orig[:len(orig)/2]
+					}
+					_ = os.WriteFile(p, m, 0644)
 				}
 			}
 			env.WipeOutputs()
@@ -206,4 +247,54 @@ func restoreFaultPart(run *report.Run, st *Setup, cases, faultsPerCase int, kind
 		}
 		run.Sample(map[string]any{"fault_case": i, "shape": s.Shape(), "minimal": minimal, "history": env.Log})
 	})
+}
+
+// dropNestedField removes one field somewhere inside a protobuf message, at any depth
+// (length-delimited fields that themselves parse as messages are descended into), so that the
+// result still decodes but a sub-message or scalar the reader expects is absent. Every field of
+// every nesting level is a candidate; one is drawn uniformly.
+func dropNestedField(r *rng.R, b []byte, depth int) ([]byte, bool) {
+	vs := dropVariants(b, 0)
+	if len(vs) == 0 {
+		return nil, false
+	}
+	return vs[r.Intn(len(vs))], true
+}
+
+func dropVariants(b []byte, depth int) [][]byte {
+	type fld struct {
+		start, end, valStart int
+		typ                  protowire.Type
+	}
+	var fs []fld
+	for off := 0; off < len(b); {
+		num, typ, n := protowire.ConsumeTag(b[off:])
+		if n < 0 || num <= 0 {
+			return nil
+		}
+		m := protowire.ConsumeFieldValue(num, typ, b[off+n:])
+		if m < 0 {
+			return nil
+		}
+		fs = append(fs, fld{off, off + n + m, off + n, typ})
+		off += n + m
+	}
+	var out [][]byte
+	for _, f := range fs {
+		// this field dropped
+		v := append([]byte{}, b[:f.start]...)
+		out = append(out, append(v, b[f.end:]...))
+		// or something inside it
+		if f.typ == protowire.BytesType && depth < 5 {
+			inner, n := protowire.ConsumeBytes(b[f.valStart:f.end])
+			if n > 0 && len(inner) > 1 {
+				for _, iv := range dropVariants(inner, depth+1) {
+					w := append([]byte{}, b[:f.valStart]...)
+					w = protowire.AppendBytes(w, iv)
+					out = append(out, append(w, b[f.end:]...))
+				}
+			}
+		}
+	}
+	return out
 }
